@@ -523,7 +523,7 @@ func runStress(r *ev.Run, rc *reach) {
 	timed(r, "lockpile+cleaner-stress", func() {
 		nSmall := r.Pick(10, 200)
 		hangs := 0
-		for i := 0; i < nSmall && hangs < 2; i++ {
+		for i := 0; i < 2*nSmall && hangs < 2; i++ {
 			if lockPileRound(r, rc, i) != roundFinished {
 				hangs++
 			}
@@ -538,7 +538,7 @@ func runStress(r *ev.Run, rc *reach) {
 	r.Floor("file-stress:persistency-node-applies-racing-mutators", 100000)
 	r.Floor("file-stress:calls-overlapping-the-other-side-on-the-same-file", 10000)
 	r.Floor("stress-round-finished:file", 3)
-	r.Floor("lockpile-backoff", 50)
+	r.Floor("lockpile-backoff", 20)
 	r.Floor("overlap:opposite-direction-renames", 50)
 	r.Floor("overlap:parent-to-child-rename-racing-directory-rename", 20)
 	r.Floor("overlap:enter-racing-removal", 20)
